@@ -85,6 +85,10 @@ def main(argv=None):
             tier = "quick"
         seed = int(os.environ.get("VERIF_SEED", "0") or 0)
         mod = importlib.import_module(f"sim.checks.{args.prop.lower()}")
+        if tier == "thorough" and not os.environ.get("VERIF_CASE_CAP"):
+            # the per-case wall cap is a hang detector (a killed case is exit 3, never a pass): thorough cases with real flows
+            # and many replicates take minutes each on a loaded machine, so they get more headroom than quick ones
+            harness.CASE_WALL_CAP = 1500
         return harness.run_check(mod, tier, seed)
     if args.cmd == "replay":
         sim.pin_to_one_cpu()  # the case runs in this process
